@@ -62,9 +62,9 @@ CHECKS = {
         "technique": "TLC model checking of RouterSys.tla + TLC trace validation (state projection per step, invariants on every trace state) of the real router stepped through TLC-generated and seeded schedules",
     },
     "C16": {
-        "bins": ["router_run"], "bins_small": ["router_run"],
+        "bins": ["router_run", "wills"], "bins_small": ["router_run"],
         "category": "model_checking",
-        "text": "RouterSys.tla with wills registered at connect, DISCONNECT packets, link ends and PublishWill events in every order: WillAtMostOnce, WillNeverAfterDisconnect, WillPublishedWhenDue (checked when the event channel is empty), and the will reaches the matching subscribers like any publish (DeliveredExactly, retained wills via RetainedRules). The link-side decision (remote(): will delay, takeover cancel/fire) is not part of this check. TLC-generated schedules and seeded structured scenarios are executed on the real Router (scaled-constant build) and validated step by step against RouterTrace.tla with these invariants evaluated in every state.",
+        "text": "Will.tla is the decision table of one connection's life seen from outside (will none/plain/retained x QoS x end by socket drop / protocol error / DISCONNECT / keep-alive expiry x an earlier connection of the same client id whose will fired x protocol version -> how often a standing subscriber sees the will, what a late subscriber gets as retained); TLC checks that the table implies the property and enumerates the rows, each row runs through the real remote() of server/broker.rs with a real router thread. Routing core: RouterSys.tla with wills registered at connect, DISCONNECT packets, link ends and PublishWill events in every order: WillAtMostOnce, WillNeverAfterDisconnect, WillPublishedWhenDue (checked when the event channel is empty), and the will reaches the matching subscribers like any publish (DeliveredExactly, retained wills via RetainedRules). The link-side decision (remote(): will delay, takeover cancel/fire) is not part of this check. TLC-generated schedules and seeded structured scenarios are executed on the real Router (scaled-constant build) and validated step by step against RouterTrace.tla with these invariants evaluated in every state.",
         "design_ref": "DESIGN.md section 6 / C16",
         "note": "Trusted: Router.tla/RouterSys.tla as transcription of rumqttd/src/router (bound step by step by trace validation of the real router with a full state projection), TLC, the verif hooks that step the router single-threaded, the scripted clients of the harness. Exhaustive only for the small configurations; production constants sampled by validated traces. Topic aliases, subscription ids, message expiry, segment eviction are not modelled here.",
         "technique": "TLC model checking of RouterSys.tla + TLC trace validation (state projection per step, invariants on every trace state) of the real router stepped through TLC-generated and seeded schedules",
@@ -112,7 +112,7 @@ CHECKS = {
     "C19": {
         "bins": ["admission", "router_run"], "bins_small": ["router_run"],
         "category": "model_checking",
-        "text": "Admission.tla is the decision table of a new network connection: first packet kind and protocol level x keep-alive x client-id class x clean flag x auth configuration (none / static / callback) x login (absent / wrong / right) x router occupancy -> accept / error CONNACK / silent close. TLC checks for all 5184 rows that the table implies what the property demands (Demanded) and enumerates the rows; every row (quick: all rows whose first packet arrives plus a seventh of the connect-timeout rows) is executed through the real remote() of server/broker.rs with a real router thread over an in-memory stream, and the observed outcome plus whether a later SUBSCRIBE/PUBLISH reaches a monitor subscriber is compared with the table. One-live-connection-per-client-id and live-connections-within-max are invariants of RouterSys.tla (SlabsAligned), model-checked over connect/disconnect/takeover histories with max_connections 1 and 2 and validated on traces of the real router.",
+        "text": "Admission.tla is the decision table of a new network connection: first packet kind and protocol level x keep-alive x client-id class x clean flag x auth configuration (none / static / callback) x login (absent / wrong / right / right user with a prefix of the password / right user with an empty password) x router occupancy -> accept / error CONNACK / silent close. TLC checks for all 8640 rows that the table implies what the property demands (Demanded) and enumerates the rows; every row (quick: all rows whose first packet arrives plus a seventh of the connect-timeout rows) is executed through the real remote() of server/broker.rs with a real router thread over an in-memory stream, and the observed outcome plus whether a later SUBSCRIBE/PUBLISH reaches a monitor subscriber is compared with the table. One-live-connection-per-client-id and live-connections-within-max are invariants of RouterSys.tla (SlabsAligned), model-checked over connect/disconnect/takeover histories with max_connections 1 and 2 and validated on traces of the real router.",
         "design_ref": "DESIGN.md section 6 / C19",
         "note": "Trusted: Admission.tla as the reading of the code's checks, TLC, the harness' classification of what the candidate reads back (250 ms window, real time). TLS client certificates, websockets and the bridge are not exercised.",
         "technique": "TLA+ decision table enumerated by TLC and replayed row by row into the real admission path + TLC model checking and trace validation of the router's connection bookkeeping",
